@@ -529,6 +529,8 @@ pub struct Guard {
     pub levels: u64,
     /// single parse, no model operations (deep trees make rowan quadratic)
     pub light: bool,
+    /// which nesting guard bounds the form (K_EXPR, K_STMT, K_TYPE, K_NS)
+    pub kind: usize,
 }
 
 #[derive(Clone)]
@@ -2055,8 +2057,10 @@ fn gen_sweep(seed: u64, n: u64, r: &mut Rng, ctx: &Ctx) -> Sweep {
 // MAX_EXPRESSION_DEPTH.  EVERY way an expression recurses must count: parentheses, prefix operators,
 // call arguments (positional and named), index lists, the right operand of a right-associative
 // operator, a prefix operator after a binary one, and alternations of these.  Forms that only loop
-// (left-associative chains, member / deref / index / call postfix chains) must never trip the guard.
-// (name, opener, closer, core, parse_expr_bp levels per unit; 0 = flat: one or two levels in total)
+// (left-associative chains, member / deref / index / call postfix chains) wrap the left operand once
+// per operator: the TREE is as deep as the chain is long, so they must count as well (one level per
+// operator) - rowan drops a tree recursively.
+// (name, opener, closer, core, expression levels per unit); levels = units * per + 1
 const GUARD_FORMS: &[(&str, &str, &str, &str, u64)] = &[
     ("parens", "(", ")", "1", 1),
     ("call-args", "f(", ")", "1", 1),
@@ -2071,23 +2075,28 @@ const GUARD_FORMS: &[(&str, &str, &str, &str, u64)] = &[
     ("call-index-alternation", "f(a[", "])", "1", 2),
     ("adr-sizeof", "ADR(", ")", "v", 1),
     ("paren-call-mix", "(f(", "))", "1", 2),
-    ("flat-left-assoc", "a + ", "", "a", 0),
-    ("flat-member-chain", "", ".b", "a", 0),
-    ("flat-deref-index-call-chain", "", "^[1](2)", "a", 0),
+    ("flat-left-assoc", "a + ", "", "a", 1),
+    ("flat-member-chain", "", ".b", "a", 1),
+    ("flat-deref-index-call-chain", "", "^[1](2)", "a", 3),
 ];
 
 /// The (form, target level count) pairs of a run: at the guard, just beyond it and far beyond it in
-/// every run; further out (and just below) in the thorough tier.  Flat forms need no boundary cases.
+/// every run; further out (and just below) in the thorough tier.
 fn guard_cases() -> Vec<(usize, u64)> {
     let g = GUARD_LIMIT.load(std::sync::atomic::Ordering::Relaxed);
     let full = SWEEP_FULL.load(std::sync::atomic::Ordering::Relaxed);
     let mut v = Vec::new();
     for (i, form) in GUARD_FORMS.iter().enumerate() {
-        let mut t: Vec<u64> = if form.4 == 0 { vec![2000] } else { vec![g, g + 1, g + 76] };
+        let flat = form.0.starts_with("flat-");
+        let mut t: Vec<u64> = vec![g, g + 1, g + 76];
+        if flat {
+            // chains: 10 x the limit in every run (unguarded, the drop of such a tree overflows 2 MiB)
+            t.push(10 * g);
+        }
         if full {
-            t.extend([g - 24, 3000, 4000]);
-            if form.4 != 0 {
-                t.push(2000);
+            t.extend([g - 24, 2000, 3000, 4000]);
+            if flat {
+                t.push(100 * g);
             }
         }
         v.extend(t.into_iter().map(|t| (i, t)));
@@ -2099,14 +2108,39 @@ fn guard_cases() -> Vec<(usize, u64)> {
 pub static GUARD_LIMIT: std::sync::atomic::AtomicU64 = std::sync::atomic::AtomicU64::new(1024);
 pub static GUARD_MESSAGE: std::sync::OnceLock<String> = std::sync::OnceLock::new();
 
-fn read_guard(repo: &str) -> Result<(u64, String), String> {
-    let path = std::path::Path::new(repo).join("crates/trust-syntax/src/parser/grammar/expressions.rs");
+pub const K_EXPR: usize = 0;
+pub const K_STMT: usize = 1;
+pub const K_TYPE: usize = 2;
+pub const K_NS: usize = 3;
+pub const KIND_NAMES: [&str; 4] = ["expression", "statement", "type", "namespace"];
+/// (file under parser/grammar, constant, counter field) of each nesting guard
+const GUARD_SOURCES: [(&str, &str, &str); 4] = [
+    ("expressions.rs", "MAX_EXPRESSION_DEPTH", "expr_depth"),
+    ("statements.rs", "MAX_STATEMENT_DEPTH", "stmt_depth"),
+    ("declarations.rs", "MAX_TYPE_DEPTH", "type_depth"),
+    ("pou.rs", "MAX_NAMESPACE_DEPTH", "namespace_depth"),
+];
+/// Depths used to lay out the cases of a kind whose guard the source does not have.
+const DEFAULT_LIMITS: [u64; 4] = [1024, 256, 256, 256];
+/// (limit, message) of each nesting guard as read from the source; `None` = the source has no such guard.
+pub static NEST_LIMITS: std::sync::OnceLock<[Option<(u64, String)>; 4]> = std::sync::OnceLock::new();
+
+fn nest_limit(kind: usize) -> u64 {
+    NEST_LIMITS.get().and_then(|l| l[kind].as_ref().map(|x| x.0)).unwrap_or(DEFAULT_LIMITS[kind])
+}
+
+/// Limit and message of one nesting guard, read from the grammar source.  Ok(None): the constant does
+/// not exist (no guard).  A constant without a recognisable guard test is an error (fail closed).
+fn read_guard(repo: &str, kind: usize) -> Result<Option<(u64, String)>, String> {
+    let (file, konst, field) = GUARD_SOURCES[kind];
+    let path = std::path::Path::new(repo).join("crates/trust-syntax/src/parser/grammar").join(file);
     let text = std::fs::read_to_string(&path).map_err(|e| format!("{}: {e}", path.display()))?;
-    let pat = "const MAX_EXPRESSION_DEPTH: usize = ";
-    let i = text.find(pat).ok_or("MAX_EXPRESSION_DEPTH not found")?;
+    let pat = format!("const {konst}: usize = ");
+    let Some(i) = text.find(&pat) else { return Ok(None) };
     let rest = &text[i + pat.len()..];
     let n: u64 = rest[..rest.find(';').ok_or("no ;")?].trim().replace('_', "").parse().map_err(|e| format!("{e}"))?;
-    let j = text.find("self.expr_depth >= MAX_EXPRESSION_DEPTH").ok_or("guard test not found")?;
+    let test = format!("self.{field} >= {konst}");
+    let j = text.find(&test).ok_or(format!("guard test `{test}` not found"))?;
     let rest = &text[j..];
     let k = rest.find("self.error(\"").ok_or("guard message not found")?;
     let rest = &rest[k + "self.error(\"".len()..];
@@ -2114,7 +2148,7 @@ fn read_guard(repo: &str) -> Result<(u64, String), String> {
     if n < 64 || msg.is_empty() {
         return Err(format!("implausible guard: {n} {msg:?}"));
     }
-    Ok((n, msg))
+    Ok(Some((n, msg)))
 }
 
 fn gen_guard_case(form: usize, target: u64, ins_seed: u64) -> CaseInput {
@@ -2122,13 +2156,7 @@ fn gen_guard_case(form: usize, target: u64, ins_seed: u64) -> CaseInput {
     let g = GUARD_LIMIT.load(std::sync::atomic::Ordering::Relaxed);
     // units so that the level count is the largest <= target (targets up to the guard) or the
     // smallest >= target (targets beyond it)
-    let (units, levels) = if per == 0 {
-        // flat chains: `target` counts chained operations, not units.  (Kept <= 4000: the tree of a flat
-        // chain is as deep as the chain is long, and rowan's recursive drop of a tree some 6000+ deep
-        // overflows a 2 MiB stack on the UNCHANGED code - noted in the report, outside this family.)
-        let ops_per_unit = close.matches(['.', '^', '[', '(']).count().max(1) as u64;
-        (target / ops_per_unit, 2)
-    } else if target <= g {
+    let (units, levels) = if target <= g {
         let u = (target - 1) / per;
         (u, u * per + 1)
     } else {
@@ -2148,45 +2176,87 @@ fn gen_guard_case(form: usize, target: u64, ins_seed: u64) -> CaseInput {
             levels,
             // one parse per case: the random nesting class gives the same shapes the full treatment
             light: true,
+            kind: K_EXPR,
         }),
         pre_fails: Vec::new(),
         pre_notes: Vec::new(),
     }
 }
 
-/// The oracle clause of the guard family on the reported errors.
+/// The oracle clause of the guard family on the reported errors: the nesting-limit error of the
+/// guard that bounds the form is reported iff the form needs more levels than that limit, and no
+/// other nesting guard fires.  A guard that the source does not have (`None`) has no limit: the
+/// parse must simply return.
 fn guard_verdict(g: &Guard, errors: &[(usize, usize, String)]) -> Option<String> {
-    let limit = GUARD_LIMIT.load(std::sync::atomic::Ordering::Relaxed);
-    let msg = GUARD_MESSAGE.get().map(|s| s.as_str()).unwrap_or("expression nesting exceeds parser limit");
-    let fired = errors.iter().any(|(_, _, m)| m == msg);
-    let want = g.levels > limit;
-    if fired == want {
-        None
-    } else if want {
-        Some(format!("nesting guard did NOT fire: form {} needs {} expression levels (> {limit}) but no {msg:?} error was reported ({} errors)", g.form, g.levels, errors.len()))
-    } else {
-        Some(format!("nesting guard fired although form {} needs only {} expression levels (<= {limit})", g.form, g.levels))
+    let limits = NEST_LIMITS.get().expect("limits are read before any case runs");
+    for (k, l) in limits.iter().enumerate() {
+        let Some((limit, msg)) = l else { continue };
+        let fired = errors.iter().any(|(_, _, m)| m == msg);
+        if k != g.kind {
+            if fired {
+                return Some(format!("{} nesting guard fired on form {} which nests {} only", KIND_NAMES[k], g.form, KIND_NAMES[g.kind]));
+            }
+            continue;
+        }
+        let want = g.levels > *limit;
+        if fired != want {
+            return Some(if want {
+                format!("nesting guard did NOT fire: form {} needs {} {} levels (> {limit}) but no {msg:?} error was reported ({} errors)", g.form, g.levels, KIND_NAMES[k], errors.len())
+            } else {
+                format!("nesting guard fired although form {} needs only {} {} levels (<= {limit})", g.form, g.levels, KIND_NAMES[k])
+            });
+        }
     }
+    None
 }
 
 /// Guard-family case with a single parse and no model operations.
 fn run_case_light(n: u64, input: &CaseInput, lang: &Lang, out: &mut Out) -> bool {
     let src = input.text.as_str();
+    let t_start = std::time::Instant::now();
     out.line(format!("case {n}"));
     out.line(format!("# class {} {}", input.class, input.note));
     out.count(&format!("class_{}", input.class));
     out.count("cases_oracle_only");
+    out.count(if input.note.starts_with("nest ") { "nest_family_cases" } else { "guard_family_cases" });
     out.add("bytes", src.len() as u64);
     out.line(lang_line(lang, &[]));
-    out.line(format!("src {}", hex(src.as_bytes())));
-    out.line("# model operations skipped (guard family beyond the limit: single parse); oracle only");
+    // far-out texts are large and regular: the note regenerates them, the file keeps the head
+    if src.len() <= 65536 {
+        out.line(format!("src {}", hex(src.as_bytes())));
+    } else {
+        out.line(format!("src {}", hex(&src.as_bytes()[..char_boundary_at_or_before(src, 4096)])));
+        out.line(format!("# src truncated to 4096 of {} bytes (vharness c12 --nestprobe <form> --units <n> regenerates it)", src.len()));
+    }
+    out.line("# model operations skipped (nesting families: oracle only)");
     let (mut fails, p) = quick_check(lang, src);
     if let (Some(p), Some(g)) = (&p, &input.guard) {
         if let Some(f) = guard_verdict(g, &p.errors) {
             fails.push(f);
         }
         out.add("tree_nodes", p.dump.nodes);
+        out.line(format!("# tree depth {} errors {} first-parse-ms {}", p.dump.max_depth, p.errors.len(), t_start.elapsed().as_millis()));
+        let k = format!("max_tree_depth_{}", KIND_NAMES[g.kind]);
+        let seen = out.stats.get(&k).copied().unwrap_or(0);
+        if p.dump.max_depth > seen {
+            out.add(&k, p.dump.max_depth - seen);
+        }
+        // purity: a second parse (after parsing something else) gives the same tree dump and errors
+        // (skipped where one parse takes seconds: the far-out 1 MB texts)
+        if t_start.elapsed().as_millis() < 1500 {
+            let _ = catch_unwind(AssertUnwindSafe(|| parse("PROGRAM q x := 1 +; END_PROGRAM")));
+            match observe_parse(src) {
+                Some(p2) => {
+                    out.count("nesting_second_parse_checked");
+                    if p2.dump != p.dump || p2.errors != p.errors || p2.leaves != p.leaves {
+                        fails.push("impure-second-parse-differs".into());
+                    }
+                }
+                None => fails.push("impure-second-parse-panicked".into()),
+            }
+        }
     }
+    out.add("ms_nesting_families", t_start.elapsed().as_millis() as u64);
     if fails.is_empty() {
         out.line("# oracle ok");
     } else {
@@ -2198,6 +2268,325 @@ fn run_case_light(n: u64, input: &CaseInput, lang: &Lang, out: &mut Out) -> bool
     out.line("tag nontrivial");
     out.line("end");
     fails.is_empty()
+}
+
+// ---- nesting families: every recursive rule of the grammar -----------------------------------------
+//
+// The grammar functions that can reach themselves (read off grammar/*.rs):
+//   statements    parse_statement -> parse_{if,case,for,while,repeat,label}_stmt -> parse_statement
+//   types         parse_type_ref -> parse_array_type | POINTER [TO] | REF_TO -> parse_type_ref
+//                 (parse_struct_def -> parse_var_decl -> parse_type_ref does not accept STRUCT: no cycle)
+//   namespaces    parse_namespace -> parse_namespace
+//   expressions   parse_expr_bp -> prefix | parse_primary_expr (parens, ADR, SIZEOF) | parse_postfix_expr
+//                 (index, arguments) | right operand -> parse_expr_bp                   [GUARD_FORMS]
+//   mixed         parse_primary_expr (SIZEOF) -> parse_type_ref -> subrange / STRING[..] / ARRAY[..]
+//                 -> parse_expression; declarations (initialisers, subranges, case labels, enum values)
+//                 -> parse_expression
+//   tree depth    the loop of parse_expr_bp wraps the left operand once per postfix / binary operator
+// Every form is generated at its guard's limit, one level beyond, 10 x and (rotating in the quick
+// tier, all in the thorough tier) 100 x beyond, and is parsed in the capped child on a thread with a
+// 2 MiB stack.  Oracle: the child survives (parse, second parse, drop), the light C12 oracle holds
+// (tokens tile, tree text = input, leaves = tokens, error ranges inside the text, second parse gives
+// the same dump and errors) and the nesting-limit error of the bounding guard is reported iff the
+// form needs more levels than the limit read from the source.
+pub struct NestForm {
+    pub name: &'static str,
+    pub kind: usize,
+    pub pre: &'static str,
+    pub open: &'static str,
+    pub core: &'static str,
+    pub close: &'static str,
+    pub post: &'static str,
+    /// levels of the bounding guard: units * per + base
+    pub per: u64,
+    pub base: u64,
+}
+
+const fn nf(name: &'static str, kind: usize, pre: &'static str, open: &'static str, core: &'static str, close: &'static str, post: &'static str, per: u64, base: u64) -> NestForm {
+    NestForm { name, kind, pre, open, core, close, post, per, base }
+}
+
+const P0: &str = "PROGRAM p\n";
+const P1: &str = "\nEND_PROGRAM\n";
+const V0: &str = "PROGRAM p VAR v : ";
+const V1: &str = "; END_VAR END_PROGRAM\n";
+
+pub const NEST_FORMS: &[NestForm] = &[
+    // statements: every statement that contains statements (one parse_statement per level + the core)
+    nf("if", K_STMT, P0, "IF a THEN ", "x := 1;", " END_IF;", P1, 1, 1),
+    nf("if-unclosed", K_STMT, P0, "IF a THEN ", "x := 1;", "", P1, 1, 1),
+    nf("if-else", K_STMT, P0, "IF a THEN ELSE ", "x := 1;", " END_IF;", P1, 1, 1),
+    nf("if-elsif", K_STMT, P0, "IF a THEN ELSIF b THEN ", "x := 1;", " END_IF;", P1, 1, 1),
+    nf("case", K_STMT, P0, "CASE a OF 1: ", "x := 1;", " END_CASE;", P1, 1, 1),
+    nf("case-else", K_STMT, P0, "CASE a OF 1: ; ELSE ", "x := 1;", " END_CASE;", P1, 1, 1),
+    nf("for", K_STMT, P0, "FOR i := 1 TO 2 DO ", "x := 1;", " END_FOR;", P1, 1, 1),
+    nf("while", K_STMT, P0, "WHILE a DO ", "x := 1;", " END_WHILE;", P1, 1, 1),
+    nf("repeat", K_STMT, P0, "REPEAT ", "x := 1;", " UNTIL a END_REPEAT;", P1, 1, 1),
+    nf("label", K_STMT, P0, "l: ", "x := 1;", "", P1, 1, 1),
+    nf("while-for", K_STMT, P0, "WHILE a DO FOR i := 1 TO 2 DO ", "x := 1;", " END_FOR; END_WHILE;", P1, 2, 1),
+    nf("if-in-method", K_STMT, "FUNCTION_BLOCK fb\nMETHOD m\n", "IF a THEN ", "x := 1;", " END_IF;", "\nEND_METHOD\nEND_FUNCTION_BLOCK\n", 1, 1),
+    nf("repeat-in-action", K_STMT, "FUNCTION_BLOCK fb\nACTION act\n", "REPEAT ", "x := 1;", " UNTIL a END_REPEAT;", "\nEND_ACTION\nEND_FUNCTION_BLOCK\n", 1, 1),
+    nf("case-in-function", K_STMT, "FUNCTION f : INT\n", "CASE a OF 1: ", "f := 1;", " END_CASE;", "\nEND_FUNCTION\n", 1, 1),
+    // types: every type constructor that contains a type (one parse_type_ref per level + the core)
+    nf("array-of-typedecl", K_TYPE, "TYPE t : ", "ARRAY[0..1] OF ", "INT", "", "; END_TYPE\n", 1, 0),
+    nf("array-of-var", K_TYPE, V0, "ARRAY[0..1] OF ", "INT", "", V1, 1, 1),
+    nf("array-of-bare", K_TYPE, V0, "ARRAY OF ", "INT", "", V1, 1, 1),
+    nf("pointer-to", K_TYPE, V0, "POINTER TO ", "INT", "", V1, 1, 1),
+    nf("pointer-bare", K_TYPE, V0, "POINTER ", "INT", "", V1, 1, 1),
+    nf("ref-to", K_TYPE, V0, "REF_TO ", "INT", "", V1, 1, 1),
+    nf("ref-to-return-type", K_TYPE, "FUNCTION f : ", "REF_TO ", "INT", "", "\nEND_FUNCTION\n", 1, 1),
+    nf("ref-to-struct-field", K_TYPE, "TYPE t : STRUCT f : ", "REF_TO ", "INT", "", "; END_STRUCT; END_TYPE\n", 1, 1),
+    nf("sizeof-pointer", K_TYPE, "PROGRAM p\nx := SIZEOF(", "POINTER TO ", "INT", "", ");\nEND_PROGRAM\n", 1, 1),
+    // mixed: an expression inside a type inside an expression ... (both counters grow; the type guard is the lower one)
+    nf("sizeof-subrange", K_TYPE, "PROGRAM p\nx := ", "SIZEOF(INT(", "1", "))", ";\nEND_PROGRAM\n", 1, 0),
+    nf("sizeof-string", K_TYPE, "PROGRAM p\nx := ", "SIZEOF(STRING[", "1", "])", ";\nEND_PROGRAM\n", 1, 0),
+    nf("sizeof-array-dim", K_TYPE, "PROGRAM p\nx := ", "SIZEOF(ARRAY[", "1", "..2] OF INT)", ";\nEND_PROGRAM\n", 1, 1),
+    // namespaces
+    nf("namespace", K_NS, "", "NAMESPACE n ", "TYPE t : INT; END_TYPE", " END_NAMESPACE", "\n", 1, 0),
+    nf("namespace-unclosed", K_NS, "", "NAMESPACE n ", "TYPE t : INT; END_TYPE", "", "\n", 1, 0),
+    nf("namespace-qualified", K_NS, "", "NAMESPACE a.b ", "PROGRAM p END_PROGRAM", " END_NAMESPACE", "\n", 1, 0),
+    // expressions reached from declarations and statements (the expression guard must hold there too)
+    nf("var-init-parens", K_EXPR, "PROGRAM p VAR v : INT := ", "(", "1", ")", V1, 1, 1),
+    nf("type-subrange-parens", K_EXPR, "PROGRAM p VAR v : INT(", "(", "1", ")", "..2); END_VAR END_PROGRAM\n", 1, 1),
+    nf("case-label-parens", K_EXPR, "PROGRAM p\nCASE a OF ", "(", "1", ")", ": ; END_CASE;\nEND_PROGRAM\n", 1, 1),
+    nf("enum-value-parens", K_EXPR, "TYPE e : (a := ", "(", "1", ")", "); END_TYPE\n", 1, 1),
+    nf("if-condition-parens", K_EXPR, "PROGRAM p\nIF ", "(", "a", ")", " THEN ; END_IF;\nEND_PROGRAM\n", 1, 1),
+    // tree depth from the wrapping loop of parse_expr_bp: chains, and chains stacked on nesting
+    // (`staircase`: every parenthesis is followed by a chain, the heights add up)
+    nf("chain-compare", K_EXPR, "PROGRAM p\nx := ", "", "a", " = a", ";\nEND_PROGRAM\n", 1, 1),
+    nf("chain-sum-of-products", K_EXPR, "PROGRAM p\nx := ", "", "a", " + a * a", ";\nEND_PROGRAM\n", 1, 2),
+    nf("chain-and-or", K_EXPR, "PROGRAM p\nx := ", "", "a", " AND a OR a", ";\nEND_PROGRAM\n", 1, 2),
+    nf("chain-in-call-arg", K_EXPR, "PROGRAM p\nx := f(", "", "a", " - a", ");\nEND_PROGRAM\n", 1, 2),
+    nf("chain-in-condition", K_EXPR, "PROGRAM p\nWHILE ", "", "a", ".b", " DO ; END_WHILE;\nEND_PROGRAM\n", 1, 1),
+    nf("chain-call-call", K_EXPR, "PROGRAM p\n", "", "f", "()", ";\nEND_PROGRAM\n", 1, 1),
+    nf("staircase-binary", K_EXPR, "PROGRAM p\nx := ", "(", "a", ")+a+a+a", ";\nEND_PROGRAM\n", 4, 1),
+    nf("staircase-postfix", K_EXPR, "PROGRAM p\nx := ", "(", "a", ").b^", ";\nEND_PROGRAM\n", 3, 1),
+    nf("staircase-unary", K_EXPR, "PROGRAM p\nx := ", "-(", "a", ")*a", ";\nEND_PROGRAM\n", 3, 1),
+];
+
+/// (form, units) of the witnesses listed in known_findings.json (a little above the smallest depth
+/// that overflowed a 2 MiB stack on the code before the fix; see evidence/C12.measurements.txt).
+pub const NEST_WITNESSES: &[(&str, u64)] = &[
+    ("if", 8000),
+    ("case-else", 4000),
+    ("label", 8000),
+    ("while-for", 4000),
+    ("array-of-var", 4000),
+    ("ref-to-return-type", 4000),
+    ("sizeof-array-dim", 3000),
+    ("namespace", 8000),
+    ("chain-compare", 8000),
+    ("chain-call-call", 8000),
+    ("staircase-postfix", 3000),
+];
+
+pub fn nest_text(f: &NestForm, units: u64) -> String {
+    format!("{}{}{}{}{}", f.pre, f.open.repeat(units as usize), f.core, f.close.repeat(units as usize), f.post)
+}
+
+/// Units so that the level count is the largest <= target (targets up to the limit) or the smallest
+/// >= target (beyond it).
+fn nest_units(f: &NestForm, target: u64, limit: u64) -> u64 {
+    let t = target.saturating_sub(f.base);
+    if target <= limit {
+        t / f.per
+    } else {
+        t.div_ceil(f.per)
+    }
+}
+
+/// Largest text of the family (bytes): far-out targets are clipped to it.
+const NEST_MAX_BYTES: u64 = 1 << 20;
+
+/// The (form, units) pairs of a run.  (Far beyond an expression limit the parser restarts a statement
+/// at every chunk and `has_assign_ahead` rescans the rest of the text: quadratic, so the 100 x cases of
+/// the expression forms and the 1 MB chains are few in the quick tier.)
+fn nest_cases() -> Vec<(usize, u64)> {
+    let full = SWEEP_FULL.load(std::sync::atomic::Ordering::Relaxed);
+    let seed = SWEEP_SEED.load(std::sync::atomic::Ordering::Relaxed);
+    let mut v = Vec::new();
+    for (i, f) in NEST_FORMS.iter().enumerate() {
+        let l = nest_limit(f.kind);
+        let mut t = vec![l, l + 1, 10 * l];
+        if full || (f.kind != K_EXPR && (i as u64 + seed) % 3 == 0) {
+            t.push(100 * l);
+        }
+        if full {
+            t.extend([l - 1, 2 * l, 1000 * l]);
+        }
+        let cap = NEST_MAX_BYTES / (f.open.len() + f.close.len()) as u64;
+        let mut units: Vec<u64> = t.into_iter().map(|t| nest_units(f, t, l).min(cap)).collect();
+        units.sort();
+        units.dedup();
+        v.extend(units.into_iter().map(|u| (i, u)));
+    }
+    // the witnesses of the recorded findings (known_findings.json, C12-*-overflow), in every run: on a
+    // 2 MiB stack each of them killed the process before the nesting guards of the fix
+    for (name, units) in NEST_WITNESSES {
+        let i = NEST_FORMS.iter().position(|f| f.name == *name).expect("witness form");
+        if !v.contains(&(i, *units)) {
+            v.push((i, *units));
+        }
+    }
+    // a flat chain of about 1 MB in every run (thorough: every chain form at 1 MB through 1000 x the limit)
+    let i = NEST_FORMS.iter().position(|f| f.name == if seed % 2 == 0 { "chain-compare" } else { "chain-in-condition" }).expect("form");
+    let f = &NEST_FORMS[i];
+    let u = NEST_MAX_BYTES / (f.open.len() + f.close.len()) as u64;
+    if !v.contains(&(i, u)) {
+        v.push((i, u));
+    }
+    v
+}
+
+fn gen_nest_case(form: usize, units: u64, ins_seed: u64) -> CaseInput {
+    let f = &NEST_FORMS[form];
+    let levels = units * f.per + f.base;
+    let limit = NEST_LIMITS.get().and_then(|l| l[f.kind].as_ref().map(|x| x.0.to_string())).unwrap_or_else(|| "none".into());
+    CaseInput {
+        class: "deep",
+        note: format!("nest form={} kind={} units={units} levels={levels} limit={limit}", f.name, KIND_NAMES[f.kind]),
+        text: nest_text(f, units),
+        ins_seed,
+        sweep: None,
+        guard: Some(Guard {
+            form: f.name,
+            units,
+            levels,
+            light: true,
+            kind: f.kind,
+        }),
+        pre_fails: Vec::new(),
+        pre_notes: Vec::new(),
+    }
+}
+
+/// `--nestprobe <form> --units <n> [--guardstack_kb <k>]`: parse one text of a family on a thread with
+/// the given stack and report on stderr how far it got (a death is the observation).
+fn nest_probe(form: &str, units: u64, stack_kb: usize) -> i32 {
+    let text = match NEST_FORMS.iter().find(|f| f.name == form) {
+        Some(f) => nest_text(f, units),
+        // `--nestprobe file:<path>`: any text (composite worst cases)
+        None if form.starts_with("file:") => match std::fs::read_to_string(&form[5..]) {
+            Ok(t) => t,
+            Err(e) => {
+                eprintln!("{form}: {e}");
+                return 3;
+            }
+        },
+        None => match GUARD_FORMS.iter().find(|f| f.0 == form) {
+            Some((_, open, close, core, _)) => format!("PROGRAM p\nx := {}{}{};\nEND_PROGRAM\n", open.repeat(units as usize), core, close.repeat(units as usize)),
+            None => {
+                eprintln!("unknown form {form}");
+                return 3;
+            }
+        },
+    };
+    let h = std::thread::Builder::new()
+        .stack_size(stack_kb << 10)
+        .spawn(move || {
+            eprintln!("bytes={}", text.len());
+            let p = parse(&text);
+            eprintln!("parsed errors={}", p.errors().len());
+            let root = p.syntax();
+            eprintln!("depth={}", dump_tree(&root).max_depth);
+            drop(root);
+            drop(p);
+            eprintln!("dropped");
+        })
+        .expect("spawn");
+    if h.join().is_err() {
+        return 4;
+    }
+    0
+}
+
+/// One probe in a child process: (survived, bytes, phase reached, tree depth).
+fn probe_child(exe: &std::path::Path, repo: &str, form: &str, units: u64, stack_kb: usize) -> (bool, u64, String, u64) {
+    let o = std::process::Command::new(exe)
+        .args(["c12", "--seed", "1", "--cases", "1", "--out", "/dev/null", "--repo", repo])
+        .args(["--nestprobe", form, "--units", &units.to_string(), "--guardstack_kb", &stack_kb.to_string()])
+        .output()
+        .expect("probe child");
+    let err = String::from_utf8_lossy(&o.stderr).to_string();
+    let field = |k: &str| err.lines().find_map(|l| l.split(' ').find_map(|w| w.strip_prefix(k))).and_then(|v| v.parse::<u64>().ok()).unwrap_or(0);
+    let phase = if err.contains("dropped") {
+        "ok"
+    } else if err.contains("depth=") {
+        "drop"
+    } else if err.contains("parsed") {
+        "walk"
+    } else {
+        "parse"
+    };
+    (o.status.success() && phase == "ok", field("bytes="), phase.to_string(), field("depth="))
+}
+
+/// `--measure 1`: for every form the smallest number of units that kills a child parsing on a thread
+/// of `guardstack_kb` KiB (doubling, then bisection), or the largest size tried if nothing dies.
+/// `--measure 2`: for every form at its limit and at 10 x the limit the smallest stack (KiB) that survives.
+fn measure(exe: &std::path::Path, repo: &str, mode: usize, stack_kb: usize, only: Option<&str>, cap_bytes: u64) -> i32 {
+    let mut forms: Vec<(String, usize, u64, u64, u64)> = GUARD_FORMS.iter().map(|f| (f.0.to_string(), K_EXPR, f.4, 1, (f.1.len() + f.2.len()) as u64)).collect();
+    forms.extend(NEST_FORMS.iter().map(|f| (f.name.to_string(), f.kind, f.per, f.base, (f.open.len() + f.close.len()) as u64)));
+    for (name, kind, per, base, unit_bytes) in forms {
+        if only.map(|o| !name.contains(o)).unwrap_or(false) {
+            continue;
+        }
+        let cap = cap_bytes / unit_bytes;
+        if mode == 1 {
+            let (mut lo, mut hi) = (0u64, 64u64);
+            let mut died = None;
+            loop {
+                let (ok, _, phase, _) = probe_child(exe, repo, &name, hi, stack_kb);
+                if !ok {
+                    died = Some(phase);
+                    break;
+                }
+                lo = hi;
+                if hi >= cap {
+                    break;
+                }
+                hi = (hi * 2).min(cap);
+            }
+            if let Some(mut phase) = died {
+                while hi - lo > 1 {
+                    let mid = (lo + hi) / 2;
+                    let (ok, _, ph, _) = probe_child(exe, repo, &name, mid, stack_kb);
+                    if ok {
+                        lo = mid;
+                    } else {
+                        hi = mid;
+                        phase = ph;
+                    }
+                }
+                let (_, bytes, _, _) = probe_child(exe, repo, &name, hi, 65536);
+                println!("measure form={name} kind={} stack_kb={stack_kb} dies_at_units={hi} levels={} bytes={bytes} phase={phase}", KIND_NAMES[kind], hi * per + base);
+            } else {
+                let (_, bytes, _, depth) = probe_child(exe, repo, &name, lo, stack_kb);
+                println!("measure form={name} kind={} stack_kb={stack_kb} survives_units={lo} levels={} bytes={bytes} tree_depth={depth}", KIND_NAMES[kind], lo * per + base);
+            }
+        } else {
+            let l = nest_limit(kind);
+            for target in [l, 10 * l] {
+                let units = (target.saturating_sub(base) / per).min(cap);
+                let (mut lo, mut hi) = (8usize, 16384usize);
+                let (ok, bytes, _, depth) = probe_child(exe, repo, &name, units, hi);
+                if !ok {
+                    println!("measure form={name} kind={} units={units} bytes={bytes} needs more than {hi} KiB", KIND_NAMES[kind]);
+                    continue;
+                }
+                while hi - lo > 8 {
+                    let mid = (lo + hi) / 2;
+                    if probe_child(exe, repo, &name, units, mid).0 {
+                        hi = mid;
+                    } else {
+                        lo = mid;
+                    }
+                }
+                println!("measure form={name} kind={} units={units} levels={} bytes={bytes} tree_depth={depth} min_stack_kb={hi}", KIND_NAMES[kind], units * per + base);
+            }
+        }
+    }
+    0
 }
 
 // ---- deep nesting ---------------------------------------------------------------------------------
@@ -2362,6 +2751,12 @@ pub fn gen_case(seed: u64, n: u64, ctx: &Ctx) -> CaseInput {
         // the nesting-guard family, in every run: every recursive expression form x levels around the guard
         return gen_guard_case(gcases[k].0, gcases[k].1, ins_seed);
     }
+    let k = k - gcases.len();
+    let ncases = nest_cases();
+    if k < ncases.len() {
+        // the nesting families, in every run: every recursive rule of the grammar around and far beyond its guard
+        return gen_nest_case(ncases[k].0, ncases[k].1, ins_seed);
+    }
     let mut sweep = None;
     let (class, note, text) = match r.below(100) {
         0..=10 => ("unicode", String::new(), gen_unicode(&mut r)),
@@ -2432,6 +2827,122 @@ fn crashed_case(n: u64, input: &CaseInput, lang: &Lang, out: &mut Out, why: &str
     out.line("end");
 }
 
+enum ChildOutcome {
+    Done { block: String, stats: Vec<(String, u64)> },
+    Crashed { witness: CaseInput, why: String },
+}
+
+/// Run one case in a child process (`--child 1 --only n`) and collect its block, or the text it died on.
+/// Err = the child could not be started (a harness problem, not an observation).
+#[allow(clippy::too_many_arguments)]
+fn run_child_case(exe: &std::path::Path, args: &Args, repo: &str, max_bytes: usize, n: u64, input: &CaseInput, timeout: std::time::Duration, sub_timeout: std::time::Duration) -> Result<ChildOutcome, String> {
+    let tmp = format!("{}.child{}", args.out, n);
+    let progress = if std::path::Path::new("/dev/shm").is_dir() {
+        format!("/dev/shm/vharness-c12-{}-{n}.progress", std::process::id())
+    } else {
+        format!("{tmp}.progress")
+    };
+    let _ = std::fs::remove_file(&progress);
+    let deadline = if input.class == "sweep" { sub_timeout } else { timeout };
+    // snippets are tiny: a sweep child that needs more than 1 GiB is running away
+    let memcap = if input.class == "sweep" { args.extra_usize("sweepmemcap_mb", 1024) } else { args.extra_usize("memcap_mb", 3072) };
+    // (a failure to *start* the child is a harness problem, not an observation: retry, then give up)
+    let mut spawned = Err(std::io::Error::other("not started"));
+    for attempt in 0..4 {
+        spawned = std::process::Command::new(exe)
+            .args(["c12", "--seed", &args.seed.to_string(), "--cases", &args.cases.to_string(), "--only", &n.to_string()])
+            .args(["--out", &tmp, "--child", "1", "--repo", repo, "--maxbytes", &max_bytes.to_string()])
+            .args(["--maxmodeltokens", &args.extra_usize("maxmodeltokens", 3000).to_string()])
+            .args(["--maxparseevents", &args.extra_usize("maxparseevents", 4000).to_string()])
+            .args(["--memcap_mb", &memcap.to_string()])
+            .args(["--sweepfull", &args.extra_usize("sweepfull", 0).to_string()])
+            .args(["--progress", &progress])
+            .args(["--guardstack_kb", &args.extra_usize("guardstack_kb", 2048).to_string()])
+            .stdout(std::process::Stdio::null())
+            .stderr(std::process::Stdio::null())
+            .spawn();
+        if spawned.is_ok() {
+            break;
+        }
+        std::thread::sleep(std::time::Duration::from_millis(200 << attempt));
+    }
+    let mut child = match spawned {
+        Ok(c) => c,
+        Err(e) => return Err(format!("c12: cannot start the child process for case {n}: {e}")),
+    };
+    let mut last_prog = String::new();
+    let mut last_change = std::time::Instant::now();
+    let mut hung = false;
+    let mut ticks = 0u32;
+    let status = loop {
+        match child.try_wait() {
+            Ok(Some(st)) => break Some(st),
+            Ok(None) => {}
+            Err(_) => break None,
+        }
+        std::thread::sleep(std::time::Duration::from_millis(5));
+        ticks += 1;
+        if ticks % 40 == 0 {
+            let prog = std::fs::read_to_string(&progress).unwrap_or_default();
+            if prog != last_prog {
+                last_prog = prog;
+                last_change = std::time::Instant::now();
+            } else if last_change.elapsed() > deadline {
+                let _ = child.kill();
+                let _ = child.wait();
+                hung = true;
+                break None;
+            }
+        }
+    };
+    let ok = matches!(&status, Some(s) if s.success());
+    let outcome = match (ok, std::fs::read_to_string(&tmp)) {
+        (true, Ok(block)) => {
+            let mut stats = Vec::new();
+            if let Ok(st) = std::fs::read_to_string(format!("{tmp}.stats.json")) {
+                if let Ok(serde_json::Value::Object(m)) = serde_json::from_str::<serde_json::Value>(&st) {
+                    for (k, v) in m {
+                        stats.push((k, v.as_u64().unwrap_or(0)));
+                    }
+                }
+            }
+            ChildOutcome::Done { block, stats }
+        }
+        _ => {
+            // which (sub-)input was the child working on?
+            let prog = std::fs::read_to_string(&progress).unwrap_or_default();
+            let mut parts = prog.split(' ');
+            let _idx = parts.next();
+            let label = parts.next().map(|h| String::from_utf8_lossy(&crate::util::unhex(h)).to_string()).unwrap_or_default();
+            let text = parts.next().map(|h| String::from_utf8_lossy(&crate::util::unhex(h)).to_string());
+            let mut witness = CaseInput {
+                class: input.class,
+                note: format!("{} [{}]", input.note, label),
+                text: text.unwrap_or_else(|| input.text.clone()),
+                ins_seed: input.ins_seed,
+                sweep: None,
+                guard: None,
+                pre_fails: Vec::new(),
+                pre_notes: Vec::new(),
+            };
+            if witness.text.len() > 64 * 1024 {
+                witness.text.truncate(char_boundary_at_or_before(&witness.text, 64 * 1024));
+            }
+            let stack = if input.guard.is_some() { format!(" on a thread with a {} KiB stack", args.extra_usize("guardstack_kb", 2048)) } else { String::new() };
+            let why = if hung {
+                format!("no progress within {} s on this text (non-termination); child killed", deadline.as_secs())
+            } else {
+                format!("child process died ({status:?}) while parsing this text{stack} (stack overflow, allocation failure under the {memcap} MiB address-space cap = run-away allocation, or abort)")
+            };
+            ChildOutcome::Crashed { witness, why }
+        }
+    };
+    let _ = std::fs::remove_file(&tmp);
+    let _ = std::fs::remove_file(&progress);
+    let _ = std::fs::remove_file(format!("{tmp}.stats.json"));
+    Ok(outcome)
+}
+
 pub fn run(args: &Args) -> i32 {
     std::panic::set_hook(Box::new(|_| {}));
     let repo = args
@@ -2452,15 +2963,33 @@ pub fn run(args: &Args) -> i32 {
             return 3;
         }
     };
-    match read_guard(&repo) {
-        Ok((n, msg)) => {
-            GUARD_LIMIT.store(n, std::sync::atomic::Ordering::Relaxed);
-            let _ = GUARD_MESSAGE.set(msg);
+    let mut limits: [Option<(u64, String)>; 4] = [None, None, None, None];
+    for (k, slot) in limits.iter_mut().enumerate() {
+        match read_guard(&repo, k) {
+            Ok(l) => *slot = l,
+            Err(e) => {
+                eprintln!("c12: cannot read the {} nesting guard from grammar/{}: {e}", KIND_NAMES[k], GUARD_SOURCES[k].0);
+                return 3;
+            }
         }
-        Err(e) => {
-            eprintln!("c12: cannot read the expression nesting guard from expressions.rs: {e}");
+    }
+    match &limits[K_EXPR] {
+        Some((n, msg)) => {
+            GUARD_LIMIT.store(*n, std::sync::atomic::Ordering::Relaxed);
+            let _ = GUARD_MESSAGE.set(msg.clone());
+        }
+        None => {
+            eprintln!("c12: MAX_EXPRESSION_DEPTH not found in grammar/expressions.rs");
             return 3;
         }
+    }
+    let _ = NEST_LIMITS.set(limits);
+    if let Some(form) = args.extra.get("nestprobe") {
+        return nest_probe(form, args.extra_usize("units", 1) as u64, args.extra_usize("guardstack_kb", 2048));
+    }
+    if args.extra.contains_key("measure") {
+        let exe = std::env::current_exe().expect("current_exe");
+        return measure(&exe, &repo, args.extra_usize("measure", 1), args.extra_usize("guardstack_kb", 2048), args.extra.get("forms").map(|s| s.as_str()), (args.extra_usize("measurecap_kb", 256) as u64) << 10);
     }
     let lang = Lang::probe();
     if lang.trivia.len() != 4 {
@@ -2591,6 +3120,26 @@ pub fn run(args: &Args) -> i32 {
         eof: lang.eof,
         trivia: lang.trivia.clone(),
     }));
+    // The nesting families (one child each, about 200 of them, deep trees are slow to build) run
+    // `childjobs` at a time ahead of the main loop; their results are merged in case order below.
+    let mut prefetched: std::collections::HashMap<u64, Result<ChildOutcome, String>> = std::collections::HashMap::new();
+    {
+        let family: Vec<(u64, CaseInput)> = args.case_numbers().into_iter().map(|n| (n, gen_case(args.seed, n, &ctx))).take_while(|(n, c)| c.guard.is_some() || (*n as usize) < 512).filter(|(_, c)| c.guard.is_some()).collect();
+        let jobs = args.extra_usize("childjobs", 4).max(1);
+        let next = std::sync::atomic::AtomicUsize::new(0);
+        let results = std::sync::Mutex::new(Vec::new());
+        std::thread::scope(|sc| {
+            for _ in 0..jobs.min(family.len()) {
+                sc.spawn(|| loop {
+                    let i = next.fetch_add(1, std::sync::atomic::Ordering::Relaxed);
+                    let Some((n, input)) = family.get(i) else { break };
+                    let r = run_child_case(&exe, args, &repo, max_bytes, *n, input, timeout, sub_timeout);
+                    results.lock().expect("results").push((*n, r));
+                });
+            }
+        });
+        prefetched.extend(results.into_inner().expect("results"));
+    }
     for n in args.case_numbers() {
         let input = gen_case(args.seed, n, &ctx);
         out.count("cases");
@@ -2598,114 +3147,31 @@ pub fn run(args: &Args) -> i32 {
             // child process: a stack overflow (SIGSEGV / abort), an allocation failure under the memory cap
             // or a hang is an observable, not a harness crash.  The child reports the (sub-)input it is
             // working on through a progress file; no progress within the deadline = non-termination.
-            let tmp = format!("{}.child{}", args.out, n);
-            let progress = if std::path::Path::new("/dev/shm").is_dir() {
-                format!("/dev/shm/vharness-c12-{}-{n}.progress", std::process::id())
-            } else {
-                format!("{tmp}.progress")
+            let outcome = match prefetched.remove(&n) {
+                Some(o) => o,
+                None => run_child_case(&exe, args, &repo, max_bytes, n, &input, timeout, sub_timeout),
             };
-            let _ = std::fs::remove_file(&progress);
-            let deadline = if input.class == "sweep" { sub_timeout } else { timeout };
-            // snippets are tiny: a sweep child that needs more than 1 GiB is running away
-            let memcap = if input.class == "sweep" { args.extra_usize("sweepmemcap_mb", 1024) } else { args.extra_usize("memcap_mb", 3072) };
-            // (a failure to *start* the child is a harness problem, not an observation: retry, then give up)
-            let mut spawned = Err(std::io::Error::other("not started"));
-            for attempt in 0..4 {
-                spawned = std::process::Command::new(&exe)
-                    .args(["c12", "--seed", &args.seed.to_string(), "--cases", &args.cases.to_string(), "--only", &n.to_string()])
-                    .args(["--out", &tmp, "--child", "1", "--repo", &repo, "--maxbytes", &max_bytes.to_string()])
-                    .args(["--maxmodeltokens", &args.extra_usize("maxmodeltokens", 3000).to_string()])
-                    .args(["--maxparseevents", &args.extra_usize("maxparseevents", 4000).to_string()])
-                    .args(["--memcap_mb", &memcap.to_string()])
-                    .args(["--sweepfull", &args.extra_usize("sweepfull", 0).to_string()])
-                    .args(["--progress", &progress])
-                    .args(["--guardstack_kb", &args.extra_usize("guardstack_kb", 2048).to_string()])
-                    .stdout(std::process::Stdio::null())
-                    .stderr(std::process::Stdio::null())
-                    .spawn();
-                if spawned.is_ok() {
-                    break;
-                }
-                std::thread::sleep(std::time::Duration::from_millis(200 << attempt));
-            }
-            let mut child = match spawned {
-                Ok(c) => c,
+            match outcome {
                 Err(e) => {
-                    eprintln!("c12: cannot start the child process for case {n}: {e}");
+                    eprintln!("{e}");
                     return 3;
                 }
-            };
-            let mut last_prog = String::new();
-            let mut last_change = std::time::Instant::now();
-            let mut hung = false;
-            let mut ticks = 0u32;
-            let status = loop {
-                match child.try_wait() {
-                    Ok(Some(st)) => break Some(st),
-                    Ok(None) => {}
-                    Err(_) => break None,
-                }
-                std::thread::sleep(std::time::Duration::from_millis(5));
-                ticks += 1;
-                if ticks % 40 == 0 {
-                    let prog = std::fs::read_to_string(&progress).unwrap_or_default();
-                    if prog != last_prog {
-                        last_prog = prog;
-                        last_change = std::time::Instant::now();
-                    } else if last_change.elapsed() > deadline {
-                        let _ = child.kill();
-                        let _ = child.wait();
-                        hung = true;
-                        break None;
-                    }
-                }
-            };
-            let ok = matches!(&status, Some(s) if s.success());
-            match (ok, std::fs::read_to_string(&tmp)) {
-                (true, Ok(block)) => {
+                Ok(ChildOutcome::Done { block, stats }) => {
                     out.buf.push_str(&block);
-                    if let Ok(stats) = std::fs::read_to_string(format!("{tmp}.stats.json")) {
-                        if let Ok(serde_json::Value::Object(m)) = serde_json::from_str::<serde_json::Value>(&stats) {
-                            for (k, v) in m {
-                                if k != "corpus_files" && k != "keyword_table" {
-                                    out.add(&k, v.as_u64().unwrap_or(0));
-                                }
-                            }
+                    for (k, v) in stats {
+                        if k.starts_with("max_") {
+                            let seen = out.stats.get(&k).copied().unwrap_or(0);
+                            out.add(&k, v.saturating_sub(seen));
+                        } else if k != "corpus_files" && k != "keyword_table" {
+                            out.add(&k, v);
                         }
                     }
                 }
-                _ => {
-                    // which (sub-)input was the child working on?
-                    let prog = std::fs::read_to_string(&progress).unwrap_or_default();
-                    let mut parts = prog.split(' ');
-                    let _idx = parts.next();
-                    let label = parts.next().map(|h| String::from_utf8_lossy(&crate::util::unhex(h)).to_string()).unwrap_or_default();
-                    let text = parts.next().map(|h| String::from_utf8_lossy(&crate::util::unhex(h)).to_string());
-                    let mut witness = CaseInput {
-                        class: input.class,
-                        note: format!("{} [{}]", input.note, label),
-                        text: text.unwrap_or_else(|| input.text.clone()),
-                        ins_seed: input.ins_seed,
-                        sweep: None,
-            guard: None,
-                        pre_fails: Vec::new(),
-                        pre_notes: Vec::new(),
-                    };
-                    if witness.text.len() > 64 * 1024 {
-                        witness.text.truncate(char_boundary_at_or_before(&witness.text, 64 * 1024));
-                    }
-                    let why = if hung {
-                        format!("no progress within {} s on this text (non-termination); child killed", deadline.as_secs())
-                    } else {
-                        format!("child process died ({status:?}) while parsing this text (stack overflow, allocation failure under the {memcap} MiB address-space cap = run-away allocation, or abort)")
-                    };
+                Ok(ChildOutcome::Crashed { witness, why }) => {
                     crashed_case(n, &witness, &lang, &mut out, &why);
                     crashes += 1;
                 }
             }
-            let _ = std::fs::remove_file(&tmp);
-            let _ = std::fs::remove_file(&progress);
-            let _ = std::fs::remove_file(format!("{tmp}.stats.json"));
             if crashes >= 3 {
                 eprintln!("c12: {crashes} crashing / hanging inputs found; stopping the run early");
                 break;
